@@ -302,6 +302,25 @@ let handlers : (string * (string list -> string -> verdict)) list = [
       { model = published ^ "|true|false|true"; spec_ok = None; nontrivial = true }
     | _ -> failwith "args");
   "adapter_closed", (fun args impl -> { model = "true"; spec_ok = None; nontrivial = true });
+  "esqueue", (fun args impl -> match args with
+    | [ops] ->
+      let open EsQueue in
+      let op_of (o : string) : op =
+        let rest = S.sub o 1 (S.length o - 1) in
+        match S.get o 0 with
+        | 'e' -> Enq (Plain (nat_of_int (int_of_string rest)))
+        | 'E' -> Enq (QEvent (nat_of_int (int_of_string rest)))
+        | 'u' -> Unl (nat_of_int (int_of_string rest))
+        | _ -> Work in
+      let e = L.fold_left step init (L.map op_of (split_on ',' ops)) in
+      let ran_s = S.concat "," (L.map (fun r -> match r with
+        | RanQ (Plain n) -> "q" ^ string_of_int (int_of_nat n)
+        | RanQ (QEvent l) -> "Q" ^ string_of_int (int_of_nat l)
+        | RanL id -> "l" ^ string_of_int (int_of_nat id)) e.ran) in
+      let (ll, lc) = (match e.locks with Some (pend, cap) -> (L.length pend, int_of_nat cap) | None -> (0, -1)) in
+      { model = Printf.sprintf "%s|%d,%d,%d,%d" ran_s (L.length e.queue) ll lc (int_of_nat e.wake);
+        spec_ok = None; nontrivial = L.exists (fun r -> match r with RanL _ -> true | _ -> false) e.ran }
+    | _ -> failwith "args");
 ]
 
 let pure_main () =
